@@ -5,6 +5,19 @@ ROOT = os.path.dirname(os.path.dirname(os.path.abspath(__file__)))
 ids = [json.loads(l)["id"] for l in open(os.path.join(ROOT, "properties.jsonl"))]
 
 CLAIMED = {
+ "C01": dict(
+   text="Lean 4 theorems over Model/Jws.lean (compact, flattened and general JSON deserialization, per-algorithm verify with the ECDSA length guard, "
+        "allow-list and registry lookup; registry regenerated from JsonWebSignature.ALGORITHMS_REGISTRY on every run): accept_implies_prim_verified "
+        "(acceptance ⇒ the primitive accepted exactly the received signing input and every octet of the received signature, and the returned header/payload "
+        "are the decodings of the received segments), roundtrip_compact (∀ header, payload, key; SigCorrect is a theorem for HS*), none_never_verifies, "
+        "hmac_sig_length / ecdsa_sig_length (unconditional), tamper_reduces_to_collision, general_all_signatures (every entry verified AND at least one entry), "
+        "flat_signature_verified, registry_eq_rfc / registry_none_only_none over the generated registry; base64url round trip for all octet strings. "
+        "Correspondence: 15 algorithms × key forms × 3 serializations × bit-flip / truncation / extension / splice / other-key / alg-swap mutations against the "
+        "compiled model (HMAC-SHA2 computed natively in Lean and self-tested against hashlib); oracle = independent RFC 7515/7518 signer+verifier in both directions.",
+   note="Trusted: Lean kernel; RSA/PSS/ECDSA/EdDSA and JSON header decoding are per-case oracle tables answered by cryptography / CPython json; "
+        "JSON round trips (flattened/general) are covered by correspondence, not by a Lean round-trip theorem; base64 leniency (same octets, different text) is an accepted reading (DESIGN §3.2).",
+   technique="Lean 4 proof (acceptance ⇒ primitive verification, reduction to MAC collision) + regenerated registry + differential correspondence + independent verifier",
+   design="§4 C01"),
  "C15": dict(
    text="Lean 4 theorems, for every octet string in every position: parse_qsl∘urlencode = id (Lemmas/Percent) and its corollaries "
         "add_params_preserves_existing, token_body_roundtrip, grant_uri_roundtrip, post/none_roundtrip, bearer_query_body_roundtrip; basic_roundtrip "
